@@ -139,7 +139,7 @@ def audit_axioms(prop: str) -> dict:
     Returns {'theorems': {name: [axioms]}, 'missing': [...], 'bad': {...}, 'cmd': str}."""
     names = obligations(prop)
     data = json.loads((LEAN_DIR / 'obligations.json').read_text())
-    imports = data.get('_imports', {}).get(prop, ['Dos'])
+    imports = ['Dos']
     tmp = mkscratch('audit')
     try:
         src = ''.join(f'import {m}\n' for m in imports) + ''.join(f'#print axioms {n}\n' for n in names)
